@@ -19,6 +19,7 @@ from __future__ import annotations
 import contextlib
 import io
 import json
+import re
 import subprocess
 import sys
 from fractions import Fraction
@@ -764,6 +765,32 @@ def gen_doc(rng, stage: int, k: int, vary: bool = False):
     return spec, info
 
 
+_PLAIN_DATA_COL = re.compile(r"^COL\d+$")
+
+
+def unicode_cells(rng, spec, info, p_doc=0.25, p_cell=0.4):
+    """rewrite string cells of the plain data columns (not COL0: its sentinel identifies the row; not the key columns)
+    of one document in four with texts of the boundary family: the characters after the cell's text, or alone"""
+    from . import unitext
+
+    if rng.random() >= p_doc or not isinstance(spec.get("df"), dict):
+        return
+    cols = spec["df"]["cols"]
+    idx = [j for j, c in enumerate(cols) if _PLAIN_DATA_COL.match(str(c)) and c != "COL0"]
+    grouped = set((spec.get("body") or {}).get("group_by") or [])
+    cells = 0
+    for r in spec["df"]["rows"]:
+        for j in idx:
+            v = r[j]
+            if not isinstance(v, str) or " " in v.strip() or "\\" in v or rng.random() >= p_cell:
+                continue
+            bare = cols[j] not in grouped and rng.random() < 0.3
+            r[j] = unitext.draw_text(rng, None if bare else v, kmax=2)[1]
+            cells += 1
+    if cells:
+        info["unicode_cells"] = cells
+
+
 def stage_of(spec) -> int:
     b = spec.get("body") or {}
     if b.get("group_by"):
@@ -800,6 +827,9 @@ def _worker(args):
         else:
             spec, info = gen_doc(common.sub_rng(seed, "encodecorr", stage, k), stage, k)
             label_headers(spec, info)
+            # one document in four: data cells with characters at and around the range boundaries of the text writer
+            # (harness/unitext.py); its own random stream, the stages' streams stay as they were
+            unicode_cells(common.sub_rng(seed, "encodecorr", "unitext", stage, k), spec, info)
         if fixed is None and len(rest) > 1 and rest[1] == "args":
             # the argument-spelling class: the document of any of the three classes above with EVERY container-typed
             # constructor argument in another container the constructors accept (docgen `gen_spelling(args=True)`:
